@@ -73,5 +73,7 @@ CONSTANT UDepth
 Init == p \in ChainFamily \cup DFamily
 Next == UNCHANGED p
 Good == GoodTable(Table(p))
-Emit == Good => PrintT(ToJson([id |-> p, ct |-> WithArrays(Table(p)), order |-> Order, u |-> SetToSeq(Universe(Table(p), UDepth) \cup ArrTerms(Table(p)))]))
+Emit == Good => PrintT(ToJson([id |-> p, ct |-> Table(p), order |-> Order, u |-> SetToSeq(Universe(Table(p), UDepth))]))
+\* C06 only: with the built-in arrays (the searches of C09 are run on the user-class universe, as before)
+EmitArr == Good => PrintT(ToJson([id |-> p, ct |-> WithArrays(Table(p)), order |-> Order, u |-> SetToSeq(Universe(Table(p), UDepth) \cup ArrTerms(Table(p)))]))
 =============================================================================
